@@ -104,6 +104,15 @@ impl JsrMetadataStore {
       /* checksum */ None,
       |content| {
         let package_info: JsrPackageInfo = serde_json::from_slice(content)?;
+        #[cfg(feature = "verif_hooks")]
+        let package_info = {
+          let mut package_info = package_info;
+          crate::verif_hooks::VerifDrainOrder::verif_force_drain_order(
+            &mut package_info.versions,
+            "package_versions",
+          );
+          package_info
+        };
         Ok(Arc::new(package_info))
       },
       {
